@@ -39,6 +39,9 @@ pub enum Create {
     New,
     TryClone,
     Stdio,
+    /// `Signals::to_direct_descriptor`: a signalfd (a real one) whose regular
+    /// descriptor is replaced by a direct one inside the `Signals` handle.
+    SignalsToDirect,
 }
 
 #[derive(Clone, Debug, Serialize, Deserialize)]
@@ -125,6 +128,8 @@ struct FOp {
     borrows: Option<usize>,
     /// The kernel refused the opcode; the result comes from the system call.
     fallback: bool,
+    /// Where a `Signals` conversion leaves its result.
+    sig_cell: Option<std::rc::Rc<std::cell::RefCell<Option<a10::process::Signals>>>>,
 }
 
 struct Slot {
@@ -135,6 +140,8 @@ struct Slot {
 }
 
 enum Stdio {
+    /// Not a standard stream: a `Signals` handle owning a direct descriptor.
+    Sig(a10::process::Signals),
     In(a10::io::Stdin),
     Out(a10::io::Stdout),
     Err(a10::io::Stderr),
@@ -151,6 +158,9 @@ struct Exec<'c> {
     classes: Vec<&'static str>,
     stop: bool,
     shim_seen: usize,
+    /// One Signals handle per history (its signalfd gets the lowest free
+    /// descriptor number, which a second one would reuse).
+    signals_made: bool,
 }
 
 fn describe(fd: &AsyncFd) -> (i64, bool) {
@@ -287,6 +297,7 @@ impl<'c> Exec<'c> {
         let kind = if direct { Kind::Direct } else { Kind::File };
         let mut borrows = None;
         let mut want_direct = direct;
+        let mut sig_cell = None;
         let fut: Fut = {
             let _s = track::scope(track::TAG_A10);
             match what {
@@ -353,6 +364,37 @@ impl<'c> Exec<'c> {
                         _ => unreachable!(),
                     }
                 }
+                Create::SignalsToDirect => {
+                    if self.signals_made {
+                        self.ctx.skipped_steps += 1;
+                        return;
+                    }
+                    let signals = match a10::process::Signals::from_signals(sq, [a10::process::Signal::USER2]) {
+                        Ok(s) => s,
+                        Err(e) => {
+                            self.ctx.infra(format!("Signals::from_signals failed: {e}"));
+                            return;
+                        }
+                    };
+                    self.signals_made = true;
+                    // "Signals { fd: AsyncFd { fd: 7, kind: File }, .."
+                    let text = format!("{signals:?}");
+                    let raw = text.split("fd: AsyncFd { fd: ").nth(1).and_then(|r| r.split(',').next()).and_then(|n| n.trim().parse::<i32>().ok()).unwrap_or(-1);
+                    // Owned by the conversion from now on: whatever happens to
+                    // it, this descriptor has to be closed exactly once.
+                    self.ledger.insert(Desc::Regular(raw), Entry { closes: vec![], wrapped: Some(usize::MAX), abandoned: false, released: true });
+                    want_direct = true;
+                    let cell: std::rc::Rc<std::cell::RefCell<Option<a10::process::Signals>>> = Default::default();
+                    let cell2 = cell.clone();
+                    sig_cell = Some(cell);
+                    self.classes.push("signals-to-direct");
+                    let f = signals.to_direct_descriptor();
+                    Fut::Fds(Box::pin(async move {
+                        let s = f.await?;
+                        *cell2.borrow_mut() = Some(s);
+                        Ok(Vec::new())
+                    }))
+                }
                 Create::New => {
                     // One in four gets the lowest number there is (a process
                     // without standard input), if this case has no handle for
@@ -391,7 +433,7 @@ impl<'c> Exec<'c> {
         if let Some(i) = borrows {
             self.fds[i].borrowed += 1;
         }
-        self.ops.push(FOp { what, fut: Some(fut), user_data: 0, serial: None, posted: Vec::new(), finished_posting: false, done: false, want_direct, borrows, fallback: false });
+        self.ops.push(FOp { what, fut: Some(fut), user_data: 0, serial: None, posted: Vec::new(), finished_posting: false, done: false, want_direct, borrows, fallback: false, sig_cell });
     }
 
     fn poll_op(&mut self, i: usize) {
@@ -456,6 +498,23 @@ impl<'c> Exec<'c> {
                             let d = Desc::Regular(pair[k.min(1)]);
                             self.ledger.insert(d, Entry { closes: vec![], wrapped: None, abandoned: false, released: false });
                             self.adopt(fd, d, &format!("{what} (pipe2 fall-back)"));
+                        }
+                    }
+                    (Ok(_), Ok(descs)) if self.ops[i].what == Create::SignalsToDirect => {
+                        let got = self.ops[i].sig_cell.as_ref().and_then(|c| c.borrow_mut().take());
+                        match (got, descs.first().copied()) {
+                            (Some(sig), Some(d @ Desc::Direct(slot, _))) => {
+                                let text = format!("{sig:?}");
+                                if !text.contains(&format!("fd: AsyncFd {{ fd: {slot}, kind: Direct }}")) {
+                                    self.fail("wrong-wrap", format!("{what}: the kernel returned {d:?} but the Signals handed out is {text}"));
+                                }
+                                self.fds.push(Slot { fd: None, desc: d, borrowed: 0, stdio: Some(Stdio::Sig(sig)) });
+                                let idx = self.fds.len() - 1;
+                                if let Some(e) = self.ledger.get_mut(&d) {
+                                    e.wrapped = Some(idx);
+                                }
+                            }
+                            (got, d) => self.fail("result-mismatch", format!("{what}: returned {:?}, the kernel posted {d:?}", got.is_some())),
                         }
                     }
                     (Ok(fds), Ok(descs)) => {
@@ -695,15 +754,19 @@ impl<'c> Exec<'c> {
             let r = s.the_ring();
             r.sq_tail().wrapping_sub(r.sq_head_shared()) >= r.sq_entries
         };
-        if let Some(stdio) = self.fds[i].stdio.take() {
-            let _s = track::scope(track::TAG_A10);
-            drop(stdio);
-            self.sync("dropping a standard stream handle");
-            return;
-        }
-        let Some(ptr) = self.fds[i].fd.take() else { return };
         let desc = self.fds[i].desc;
-        let r = {
+        let r = if let Some(stdio) = self.fds[i].stdio.take() {
+            if !matches!(stdio, Stdio::Sig(_)) {
+                let _s = track::scope(track::TAG_A10);
+                drop(stdio);
+                self.sync("dropping a standard stream handle");
+                return;
+            }
+            // A Signals handle owns its (direct) descriptor like an AsyncFd.
+            let _s = track::scope(track::TAG_A10);
+            catch(|| drop(stdio))
+        } else {
+            let Some(ptr) = self.fds[i].fd.take() else { return };
             let _s = track::scope(track::TAG_A10);
             catch(|| drop(unsafe { Box::from_raw(ptr) }))
         };
@@ -746,6 +809,7 @@ fn fstep() -> impl Strategy<Value = FStep> {
         3 => Just(Create::New),
         1 => Just(Create::TryClone),
         1 => Just(Create::Stdio),
+        1 => Just(Create::SignalsToDirect),
     ];
     prop_oneof![
         6 => (what, any::<bool>(), any::<u16>()).prop_map(|(what, direct, on)| FStep::Start { what, direct, on }),
@@ -775,7 +839,7 @@ impl Property for C07 {
     }
 
     fn rule() -> &'static str {
-        "proptest histories of descriptor-creating operations (open, socket, pipe, accept, multishot accept, to_direct_descriptor, to_file_descriptor, AsyncFd::new, try_clone, stdin/stdout/stderr handles) with regular and direct kinds, completed/failed by the simulated kernel (which issues real, never reused descriptor numbers and direct slots), operations dropped before delivery, AsyncFds dropped or closed explicitly, on rings of 1..8 submission entries so that drops hit a full queue; a synchronous close(2) may report EINTR (the descriptor is released all the same and must not be closed again). Close ledger fed by IORING_OP_CLOSE SQEs (fd or file_index-1), REGISTER_FILES_UPDATE(-1) and the interposed close(2): once the owner is gone and the queue flushed each descriptor has exactly one close through a path matching its kind, nothing foreign is closed, 0-2 never; every descriptor the kernel returned is wrapped by exactly one AsyncFd with matching kind/number, or closed by the end if its operation was abandoned. Non-trivial = closed through the full-queue fall-back, or a direct descriptor, or a descriptor delivered to an abandoned operation. Distinct = (classes, 16-bit case hash)."
+        "proptest histories of descriptor-creating operations (open, socket, pipe, accept, multishot accept, to_direct_descriptor, to_file_descriptor, Signals::to_direct_descriptor over a real signalfd, AsyncFd::new, try_clone, stdin/stdout/stderr handles) with regular and direct kinds, completed/failed by the simulated kernel (which issues real, never reused descriptor numbers and direct slots), operations dropped before delivery, AsyncFds dropped or closed explicitly, on rings of 1..8 submission entries so that drops hit a full queue; a synchronous close(2) may report EINTR (the descriptor is released all the same and must not be closed again). Close ledger fed by IORING_OP_CLOSE SQEs (fd or file_index-1), REGISTER_FILES_UPDATE(-1) and the interposed close(2): once the owner is gone and the queue flushed each descriptor has exactly one close through a path matching its kind, nothing foreign is closed, 0-2 never; every descriptor the kernel returned is wrapped by exactly one AsyncFd with matching kind/number, or closed by the end if its operation was abandoned. Non-trivial = closed through the full-queue fall-back, or a direct descriptor, or a descriptor delivered to an abandoned operation. Distinct = (classes, 16-bit case hash)."
     }
 
     fn assumptions() -> Vec<&'static str> {
@@ -793,7 +857,7 @@ fn run_case(case: &Case, ctx: &mut Ctx) {
             return;
         }
     };
-    let mut exec = Exec { world, ops: Vec::new(), fds: Vec::new(), ledger: BTreeMap::new(), gens: BTreeMap::new(), ctx, events_seen: sim::events_len(), classes: Vec::new(), stop: false, shim_seen: shims::log_snapshot().len() };
+    let mut exec = Exec { world, ops: Vec::new(), fds: Vec::new(), ledger: BTreeMap::new(), gens: BTreeMap::new(), ctx, events_seen: sim::events_len(), classes: Vec::new(), stop: false, shim_seen: shims::log_snapshot().len(), signals_made: false };
 
     for s in &case.steps {
         if exec.stop {
@@ -876,7 +940,7 @@ fn run_case(case: &Case, ctx: &mut Ctx) {
                         e.released = true;
                     }
                     exec.classes.push("explicit-close");
-                    exec.ops.push(FOp { what: Create::New, fut: Some(Fut::Close(Box::pin(fut), desc)), user_data: 0, serial: None, posted: Vec::new(), finished_posting: false, done: false, want_direct: false, borrows: None , fallback: false});
+                    exec.ops.push(FOp { what: Create::New, fut: Some(Fut::Close(Box::pin(fut), desc)), user_data: 0, serial: None, posted: Vec::new(), finished_posting: false, done: false, want_direct: false, borrows: None, fallback: false, sig_cell: None });
                 }
             }
         }
